@@ -412,6 +412,12 @@ impl<'env> Context<'env> {
         self.stack.len()
     }
 
+    /// The number of frames on the stack (verification hook).
+    #[cfg(feature = "verif_hooks")]
+    pub(super) fn verif_stack_len(&self) -> usize {
+        self.stack.len()
+    }
+
     #[cfg(feature = "multi_template")]
     pub(super) fn restore_stack_depth(&mut self, depth: usize) {
         debug_assert!(self.stack.len() >= depth);
